@@ -3,6 +3,16 @@ import json, z3
 from vlib import deductive as D
 from contracts import c_utils, c_test_all
 
+META = {
+    "level": "proof",
+    "text": "split_idx and get_functions are verified against contracts for all N, P and rank by VCs generated from their AST on every run; "
+            "the tiling statement follows by lemmas over those contracts; directory creation in get_functions is proved to be rank-0-only and "
+            "barrier-separated. Stage completion, row counts and row alignment of the four main() functions are bounded (forked ranks, P up to 16) "
+            "and reported apart from the proof counts.",
+    "note": "Trusted: pyvc executor and its models of Python/numpy primitives (cross-checked by runtime sweeps on the same snapshot), z3/cvc5, "
+            "the SPMD taint rule, MPI and shell semantics (A-mpi, A-shell). Bounded parts never count as discharged obligations.",
+    "technique": "contract-based deductive verification (AST->VC->SMT, sidecar contracts) + bounded runtime stand-ins on the real code",
+}
 CHECKER = "./bin/check C14 (pyvc: AST of esr/generation/utils.py + esr/fitting/test_all.py -> VCs -> z3 5.1 / cvc5 / z3 4.8)"
 
 
